@@ -331,7 +331,7 @@ func c31(c *rig.Ctx) {
 	c.Assume("row edits only (no schema change inside C31 histories); single BIGINT key; when the model merge equals HEAD an error ('nothing to commit') is accepted and only 'data unchanged' is asserted")
 	srv, stop := startServer(c, "c31")
 	defer stop()
-	nh := c.Pick(60, 2000)
+	nh := c.Pick(60, 800)
 	st := newTally()
 	runParallel(nh, 4, func(i int) {
 		if c.Violations() > 12 {
@@ -345,6 +345,9 @@ func c31(c *rig.Ctx) {
 			opDesc = append(opDesc, o.String())
 		}
 		c.Case(fmt.Sprintf("c31/%d", i), map[string]any{"db": h.DB, "script": sqls(h.Steps), "ops": opDesc})
+		if i < 3 {
+			c.Sample(map[string]any{"script": sqls(h.Steps), "ops": opDesc})
+		}
 		runC31(c, srv, h, ops, st)
 	})
 	st.flush(c)
